@@ -167,4 +167,17 @@ PROPS = {
         "shards": {"quick": 2, "thorough": 16},
         "no_panic": ["cap "],
     },
+    "C11": {
+        "modules": ["Capnp.Props.C11"],
+        "gen": False,
+        "rule": "sequential scripts of 2-11 operations on a real Promise with an instrumented PipelineCaller and result capabilities "
+                "(Client() for two paths incl. repeats, pipelined calls directly and through the pipelined client, Fulfill, Reject, "
+                "ReleaseClients), every operation under a 2 s deadline, deliveries to caller / result compared with the model after each op (M); "
+                "Join of a promise that handed out 0-3 pipelined clients onto an answer with / without clients, then fulfilment of the parent (S); "
+                "stress: 2-8 goroutines x 5-100 calls / client requests racing one Fulfill, oracle: delivered = issued, nothing hangs (S).",
+        "trusted": COMMON_TRUSTED + ["the critical sections of answer.go are the model's atomic actions (sampled, not proved)", "Join chains are covered by the oracle stream only"],
+        "assumptions": [],
+        "shards": {"quick": 2, "thorough": 16},
+        "no_panic": ["promise "],
+    },
 }
